@@ -18,10 +18,10 @@ the theorems).  Python object identity is modelled by ids into an explicit store
 changes an id held by an object.  Nothing is ever removed, so ids are stable.
 
 The model is written to the REPAIRED behaviour of the defects since fixed in /repo
-(fixes_proposed/C17-1..6 and commit 8900795): `__isub__` subtracts, `backwards()` sets the new reactant on
+(fixes_proposed/C17-1..7 and commit 8900795): `__isub__` subtracts, `backwards()` sets the new reactant on
 the copy, `__sub__` returns a copy when there is nothing to subtract, `backwards` works for phase-tagged
 reactions, `ReactionItem.copy` does not raise, `ReactionSet.copy` and `ReactionSet.__init__` give the set its own
-stoichiometry and conversion arrays.
+stoichiometry and conversion arrays, `item += b` / `item -= b` write the set's row.
 -/
 namespace ThermoVerif.ReactionAlgebra
 
@@ -293,13 +293,14 @@ inductive Op (α : Type)
   | slice (s : Nat) (i : Nat) (j : Nat)           -- `set[i:j]`
   | item (s : Nat) (i : Nat)
   | setSetX (s : Nat) (i : Nat) (x : α)
+  | setYield (a : Nat) (c : Nat) (y : α) (b : BArg)   -- `a.product_yield(chemical c, basis, product_yield=y)` (setter form)
   | setSetXAll (s : Nat) (xs : List α)            -- `set.X = xs` (whole-array assignment: `self._X[:] = xs`)
   | reduce (s : Nat) (order : List Nat)
   | reset (a : Nat) (p : Nat)                     -- `a.reset_chemicals(package p)`
 
 /-- the in-place forms (`+= -= *= /=`, the `X` and `basis` setters, writing the set's `X`) -/
 def Op.inPlace {α : Type} : Op α → Bool
-  | .iadd .. | .isub .. | .imul .. | .idiv .. | .setBasis .. | .setX .. | .setSetX .. | .setSetXAll .. | .reset .. => true
+  | .iadd .. | .isub .. | .imul .. | .idiv .. | .setBasis .. | .setX .. | .setYield .. | .setSetX .. | .setSetXAll .. | .reset .. => true
   | _ => false
 
 section StoreOps
@@ -384,6 +385,14 @@ def Store.rebind (s : Store α) (id : Nat) (r : Rxn α) (v : List α) (x : α) :
   let s1 := { s with arrs := s.arrs ++ [v] }
   s1.writeX id { r with nu := s.arrs.length } x
 
+/-- where the result of an in-place sum goes: a plain `Reaction` is bound to a new array; a `ReactionItem`
+(repair C17-7, `_keep_row`) has the result written into the set's own row array, which it keeps referring to, so
+the set, its slices and every item of that row go on describing the same reaction -/
+def Store.assign (s : Store α) (id : Nat) (r : Rxn α) (v : List α) (x : α) : Store α :=
+  match r.x with
+  | .own _ => s.rebind id r v x
+  | .shared _ _ => Store.writeX { s with arrs := s.arrs.set r.nu v } id r x
+
 /-- value of the reaction-valued, non-in-place operations (the operands are only read) -/
 def Store.pureOp (s : Store α) : Op α → Option (Except Err (RVal α))
   | .new ph basis c x v => some (do
@@ -425,7 +434,8 @@ def reduceVals (mw : List α) (ms : List (RVal α)) : List Nat → Except Err (L
         | .ok rs => .ok (r :: rs)
 
 /-- `a += b` (`sub = false`), `a -= b` (`sub = true`): nothing happens if there is nothing to combine;
-otherwise a new array is bound to `a` and `a.X` is written through the setter -/
+otherwise the sum is stored (`Store.assign`: new array for a plain reaction, the set's row for an item) and `a.X` is
+written through the setter -/
 def Store.iaddSubOp (s : Store α) (sub : Bool) (a : Nat) (b : Option Nat) : Except Err (Store α × Nat) :=
   match s.rxn? a with
   | .error e => .error e
@@ -437,7 +447,7 @@ def Store.iaddSubOp (s : Store α) (sub : Bool) (a : Nat) (b : Option Nat) : Exc
       if !vb.hasReaction then .ok (s, a)
       else match (s.val ra).addSub (s.mwOf (s.pkgOf a)) sub (some vb) with
         | .error e => .error e
-        | .ok r => .ok (s.rebind a ra r.v r.x, a)
+        | .ok r => .ok (s.assign a ra r.v r.x, a)
 
 /-- `a *= k` -/
 def Store.imulOp (s : Store α) (a : Nat) (k : α) : Except Err (Store α × Nat) :=
@@ -453,6 +463,35 @@ def Store.idivOp (s : Store α) (a : Nat) (k : α) : Except Err (Store α × Nat
     match (s.val ra).sdiv k with
     | .error e => .error e
     | .ok r => .ok (s.writeX a ra r.x, a)
+
+/-- the conversion that the setter form of `product_yield` / `reactant_demand` computes: the yield divided by the
+chemical's coefficient (summed over the phase rows), converted between bases by the molecular-weight ratio of
+reactant and chemical when a basis other than the reaction's is given; more than 100 % is refused -/
+def yieldX (mw : List α) (nchem : Nat) (a : RVal α) (c : Nat) (y : α) (b : BArg) : Except Err α :=
+  if (List.range (nrows a.ph)).foldl (fun acc p => acc + a.v.getD (p * nchem + c) 0) 0 = 0 then .error .zeroDiv
+  else
+    match (match b with
+           | .none => Except.ok (1 : α)
+           | .bad => Except.error Err.valueError
+           | .wt => Except.ok (if a.basis = Basis.wt then 1 else mw.getD (a.ridx % nchem) 0 / mw.getD c 0)
+           | .mol => Except.ok (if a.basis = Basis.mol then 1 else mw.getD c 0 / mw.getD (a.ridx % nchem) 0)) with
+    | .error e => .error e
+    | .ok ratio =>
+      if 1 < (if y / (List.range (nrows a.ph)).foldl (fun acc p => acc + a.v.getD (p * nchem + c) 0) 0 * ratio < 0
+              then -(y / (List.range (nrows a.ph)).foldl (fun acc p => acc + a.v.getD (p * nchem + c) 0) 0 * ratio)
+              else y / (List.range (nrows a.ph)).foldl (fun acc p => acc + a.v.getD (p * nchem + c) 0) 0 * ratio)
+      then .error .valueError
+      else .ok (y / (List.range (nrows a.ph)).foldl (fun acc p => acc + a.v.getD (p * nchem + c) 0) 0 * ratio)
+
+/-- `a.product_yield(c, basis, product_yield=y)`: the computed conversion goes through the `X` setter (`self.X = X`),
+so on a `ReactionItem` it is written into the set's array -/
+def Store.setYieldOp (s : Store α) (a c : Nat) (y : α) (b : BArg) : Except Err (Store α × Nat) :=
+  match s.rxn? a with
+  | .error e => .error e
+  | .ok ra =>
+    match yieldX (s.mwOf ra.pkg) (s.nchemOf ra.pkg) (s.val ra) c y b with
+    | .error e => .error e
+    | .ok x => .ok (s.writeX a ra x, a)
 
 /-- `a.X = x` -/
 def Store.setXOp (s : Store α) (a : Nat) (x : α) : Except Err (Store α × Nat) :=
@@ -657,6 +696,7 @@ def Store.step (s : Store α) (op : Op α) : Except Err (Store α × Nat) :=
     | .imul a k => s.imulOp a k
     | .idiv a k => s.idivOp a k
     | .setX a x => s.setXOp a x
+    | .setYield a c y b => s.setYieldOp a c y b
     | .setBasis a b => s.setBasisOp a b
     | .mkSet ser ms => s.mkSetOp ser ms
     | .setCopy sid b => s.setCopyOp sid b
